@@ -4,8 +4,9 @@ from facts import strip_generics, op_local, op_const, const_int, last_seg
 from engine import site
 import c02
 
-CONFIGS = ['prod']
+CONFIGS = ['prod', 'release']
 EXPLANATION = (
+    "BUILD PARITY: the black-box and white-box registry summaries are evaluated on the facts of the RELEASE build of datacake-rpc as well (debug assertions off: whatever is written inside debug_assert! / cfg(debug_assertions) is absent), with the same expectations. "
     "G5.SEM: every function to_uri_path passes a service name / message path through is interpreted on a text of three symbolic characters (every test on a character an oracle explored both ways): the result is a per-character substitution - no character dropped, merged or moved - so names that differ only in punctuation keep different URIs. "
     "SEM, black box (abstract interpretation of the MIR, no code runs): every sequence of up to three Server::add_service / remove_service calls (two services, one re-added "
     "with another instance and fewer messages) is interpreted through the server's own API — ServiceRegistry::add_handler, the key and URI functions as symbolic terms, the "
@@ -287,6 +288,21 @@ def check(ctx):
     if not registry_abs.check_registry(ctx, facts, 'C13.SEM') and not bb:
         check_G1(ctx, facts, cg)
         check_G2(ctx, facts)
+    # BUILD PARITY (round 8, C13h: the removal written inside debug_assert!, gone when debug assertions are off): the registry summaries are
+    # evaluated on the RELEASE build of the crate as well — same scenarios, same expectations; a construct the summary does not model
+    # there decides nothing (the structural fallback reads the debug build)
+    try:
+        rfacts = ctx.facts('release')
+    except Exception:
+        rfacts = None
+    if rfacts is not None:
+        n0 = len(ctx.obs)
+        registry_abs.check_server(ctx, rfacts, 'C13.SEM')
+        registry_abs.check_registry(ctx, rfacts, 'C13.SEM')
+        for o in ctx.obs[n0:]:
+            o.key = 'release-build|' + o.key
+            if not o.ok:
+                o.detail = '[in the build WITHOUT debug assertions (cargo --release): code inside debug_assert! / cfg(debug_assertions) is not there] ' + str(o.detail)
     # SEM: one request through the connection handler, interpreted against a registry that does / does not hold the handler and
     # against both answers of the handler (server_abs); subsumes G4 and the request-path clause of G3
     import server_abs
